@@ -3,7 +3,7 @@ from __future__ import annotations
 
 import ast
 
-from .. import facts
+from .. import effects, facts
 from ..astutil import (call_name, calls_in, const_str, dotted, kwarg, literal,
                        norm, walk_no_nested)
 from ..guards import conditions_at
@@ -104,6 +104,30 @@ def r1_ownership(ctx):
                       "the user's back")
         ctx.check(bool(ws), f, f"{ident} writes {sorted({c for c, _ in ws})}",
                   f"step '{ident}' writes no column at all")
+        # no in-place edit of an array obtained from the curve: for columns
+        # edited by an earlier step afmformats hands out the stored array
+        # itself (assumption A1), so `x = apret[col]; x -= ...` silently
+        # rewrites a column the step does not assign
+        ap = f.args.args[0].arg
+        roots = {}
+        for st in walk_no_nested(f, False):
+            if isinstance(st, ast.Assign) and len(st.targets) == 1 and \
+                    isinstance(st.targets[0], ast.Name):
+                v = st.value
+                if isinstance(v, ast.Subscript) and norm(v.value) in (
+                        ap, f"{ap}.appr", f"{ap}.retr"):
+                    roots[st.targets[0].id] = \
+                        f"column:{const_str(v.slice) or norm(v.slice)}"
+        amap = effects.alias_map(f, roots)
+        muts = effects.mutations(f, amap)
+        for node, root, how in muts:
+            ctx.fail(node, how[:80],
+                     f"step '{ident}' edits in place an array it got from "
+                     f"the curve (column {root}): the stored column changes "
+                     "although the step does not assign it")
+        if not muts:
+            ctx.ok(f, f"{ident}: no in-place edit of arrays read from the "
+                   "curve")
         # no column is deleted / no reset inside a step
         for c in calls_in(f):
             if (call_name(c) or "").endswith((".reset_data", ".pop",
